@@ -97,6 +97,7 @@ func (a *mutex[T]) Lock(key T) {
 }
 
 func (a *mutex[T]) Unlock(key T) {
+	verifPoint("cmap.unlock.begin", "key", key)
 	a.lock.RLock()
 	mutex, ok := a.items[key]
 	if ok {
@@ -118,6 +119,7 @@ func (a *mutex[T]) RLock(key T) {
 }
 
 func (a *mutex[T]) RUnlock(key T) {
+	verifPoint("cmap.runlock.begin", "key", key)
 	a.lock.RLock()
 	mutex, ok := a.items[key]
 	if ok {
@@ -127,12 +129,14 @@ func (a *mutex[T]) RUnlock(key T) {
 }
 
 func (a *mutex[T]) Delete(key T) {
+	verifPoint("cmap.delete.begin", "key", key)
 	a.lock.Lock()
 	delete(a.items, key)
 	a.lock.Unlock()
 }
 
 func (a *mutex[T]) DeleteUnlock(key T) {
+	verifPoint("cmap.deleteunlock.begin", "key", key)
 	a.lock.Lock()
 	mutex, ok := a.items[key]
 	if ok {
@@ -143,6 +147,7 @@ func (a *mutex[T]) DeleteUnlock(key T) {
 }
 
 func (a *mutex[T]) DeleteRUnlock(key T) {
+	verifPoint("cmap.deleterunlock.begin", "key", key)
 	a.lock.Lock()
 	mutex, ok := a.items[key]
 	if ok {
